@@ -846,4 +846,111 @@ theorem processed_primary (known : List Nat) (acc P : Bundle) (hP : processed kn
   rw [processed_some known acc P hP]
 
 
+/-! ### Block numbers stay pairwise different -/
+
+theorem map_num_mapFirst (p : Block → Bool) (f : Block → Block) (hf : ∀ b, (f b).num = b.num)
+    (bs : List Block) : (mapFirst p f bs).map (·.num) = bs.map (·.num) := by
+  induction bs with
+  | nil => rfl
+  | cons b bs ih =>
+    unfold mapFirst
+    by_cases hp : p b = true
+    · simp [hp, hf b]
+    · simp [hp, ih]
+
+theorem setHopCount_num (c : UInt8) (b : Block) : (setHopCount c b).num = b.num := by
+  unfold setHopCount; split <;> rfl
+theorem setAge_num (a : Nat) (b : Block) : (setAge a b).num = b.num := by
+  unfold setAge; split <;> rfl
+theorem setPrev_num (n : Bytes) (b : Block) : (setPrev n b).num = b.num := by
+  unfold setPrev; split <;> rfl
+
+theorem stepHop_nums (cfg : Cfg) (bs bs1 : List Block) (h : stepHop cfg bs = .ok bs1) :
+    bs1.map (·.num) = bs.map (·.num) := by
+  unfold stepHop at h
+  split at h
+  · cases h; rfl
+  · simp only at h
+    split at h
+    · cases h
+    · cases h; exact map_num_mapFirst _ _ (setHopCount_num _) bs
+
+theorem stepAge_nums (cfg : Cfg) (lt el : Nat) (bs bs2 : List Block) (h : stepAge cfg lt el bs = .ok bs2) :
+    bs2.map (·.num) = bs.map (·.num) := by
+  unfold stepAge at h
+  split at h
+  · cases h; rfl
+  · simp only at h
+    split at h
+    · cases h
+    · cases h; exact map_num_mapFirst _ _ (setAge_num _) bs
+
+theorem stepPrev_nodup (node : Bytes) (bs : List Block) (h : (bs.map (·.num)).Nodup) :
+    ((stepPrev node bs).map (·.num)).Nodup := by
+  unfold stepPrev
+  by_cases ha : bs.any isPrev = true
+  · rw [if_pos ha, map_num_mapFirst _ _ (setPrev_num node) bs]
+    exact h
+  · rw [if_neg ha, addExtensionBlock_prev]
+    have hp := (sortBlocks_perm (bs ++ [newPrev node bs])).map (·.num)
+    rw [hp.nodup_iff, List.map_append]
+    have hfree := freeNum_not_mem 2 (bs.map (·.num))
+    simp only [List.map_cons, List.map_nil, newPrev]
+    rw [List.nodup_append]
+    refine ⟨h, by simp, ?_⟩
+    intro a ha b hb
+    simp at hb
+    subst hb
+    intro e
+    subst e
+    exact hfree ha
+
+theorem transform_nodup (cfg : Cfg) (node : Bytes) (b : Bundle) (el now : Nat) (s : Bundle)
+    (h : transform cfg node b el now = .ok s) (hn : (b.blocks.map (·.num)).Nodup) :
+    (s.blocks.map (·.num)).Nodup := by
+  obtain ⟨bs1, bs2, h1, _, h2, hs⟩ := transform_ok cfg node b el now s h
+  subst hs
+  apply stepPrev_nodup
+  rw [stepAge_nums _ _ _ _ _ h2, stepHop_nums _ _ _ h1]
+  exact hn
+
+theorem processed_nodup (known : List Nat) (acc P : Bundle) (hP : processed known acc = some P)
+    (hn : (acc.blocks.map (·.num)).Nodup) : (P.blocks.map (·.num)).Nodup := by
+  rw [processed_some known acc P hP]
+  exact hn.sublist (List.filter_sublist.map _)
+
+/-! ### The reset after the sends -/
+
+theorem afterSend_restores (node : Bytes) (b : Bundle) (el now : Nat) (s : Bundle) (l c : UInt8)
+    (h : transform Cfg.fixed node b el now = .ok s) (h1 : (b.blocks.filter isHop).length ≤ 1)
+    (hf : firstHop b.blocks = some (l, c)) : firstHop (afterSend s).blocks = some (l, c) := by
+  have hh := transform_hop node b el now s h h1
+  rw [firstHop_filter] at hf
+  cases hb : b.blocks.filter isHop with
+  | nil => rw [hb] at hf; cases hf
+  | cons a t =>
+    cases t with
+    | cons y t' => rw [hb] at h1; simp at h1
+    | nil =>
+      rw [hb] at hf hh
+      obtain ⟨l0, c0, hv⟩ := (isHop_iff a).mp (head_of_filter hb)
+      simp [hv] at hf
+      obtain ⟨rfl, rfl⟩ := hf
+      obtain ⟨c', hs, hc', _⟩ := hopOk_elim a _ l0 c0 hv hh
+      have hfs : firstHop s.blocks = some (l0, c') := by rw [firstHop_filter, hs]
+      unfold afterSend
+      rw [hfs]
+      simp only
+      rw [firstHop_filter, filter_mapFirst_same isHop _ (fun b hb => isHop_setHopCount _ b hb), hs]
+      simp only [setHopCount, hopDecrement]
+      have : c' - 1 = c0 := by
+        apply UInt8.toNat_inj.mp
+        rw [UInt8.toNat_sub_of_le]
+        · have : (1 : UInt8).toNat = 1 := rfl
+          omega
+        · rw [UInt8.le_iff_toNat_le]
+          have : (1 : UInt8).toNat = 1 := rfl
+          omega
+      rw [this]
+
 end Dtn7.Forward.Lemmas
